@@ -550,7 +550,8 @@ def generate(rng, tier):
                 choices.append("self")
             if pos[r["to"]] < pos[ci] and not future:
                 choices += ["direct", "direct"]
-            r["spell"] = "future" if future else rng.choice(choices)
+            # (under postponed evaluation a quoted name inside the annotation gives a string with a nested reference)
+            r["spell"] = ("future" if rng.random() < 0.6 else "str") if future else rng.choice(choices)
     # (req containers may have been turned into opt above: recompute which classes can be built from {'v': ..} alone)
     no_req = [ci for ci in range(n) if not any(r["cont"] == "req" for r in classes[ci]["refs"])]
     if "genfn" in prog and prog["genfn"]["to"] not in no_req:
@@ -918,7 +919,9 @@ def execute(plan):
             pending_seen = True
             res.ev(n, k)
         elif k == "other_module":
-            om = kernel.make_module("verif_c17_other_" + S.strip("_"), other_module_source(prog, S))
+            # (under postponed evaluation the other module is compiled that way too: both then reach typing's own
+            # evaluation of the nested, cached reference objects)
+            om = kernel.make_module("verif_c17_other_" + S.strip("_"), future_hdr + other_module_source(prog, S))
             o = _outcome(lambda: getattr(om, "C0" + S).__from__({"v": "x", "r0": {"v": "y"}, "r1": [{"v": "z"}], "r2": {"k": {}}}))
             res.stats["probe:other_module_used_first"] += 1
             res.stats["fault:other_module_same_names"] += 1
